@@ -575,6 +575,42 @@ def r_canvas_state(rule, root=None):
         rule.lost("transform_point in fidget-core/src/render/region.rs")
 
 
+
+def r10_cursor_to_world(rule, root=None):
+    """the canvases turn a cursor pixel into a world position in one way only: `self.image_size.transform_point`
+    applied to the cursor's own coordinates (for the 3D canvas on the image plane z = 0) - the same map the renderer
+    draws through.  A second formula (another region type, a clamped or shifted cursor) puts the zoom centre or the
+    grabbed point somewhere else than the pixel under the cursor."""
+    n = 0
+    for f in A.fns(GUI, root):
+        ow = (f.get("_owner") or {}).get("self_ty") or ""
+        if not ow.startswith("Canvas") or f.get("body") is None or f["_test"]:
+            continue
+        params = {A.binding_name(p_["pat"]) for p_ in f["sig"]["inputs"] if "pat" in p_}
+        for c in A.find(f["body"], "MethodCall"):
+            if c["method"] != "transform_point" or len(c["args"]) != 1:
+                continue
+            n += 1
+            recv = str(A.ftxt(c["recv"]))
+            # names that stand for the cursor: parameters, and closure parameters of `.map` on a parameter
+            cursor = set(params)
+            for b_name, b_src, _node in (A.enclosing_binders(f["body"], c) or []):
+                if re.match(r"\(?&?(\w+)", b_src) and re.match(r"\(?&?(\w+)", b_src).group(1) in params:
+                    cursor.add(b_name)
+            a = A.strip(c["args"][0])
+            okarg = A.ident(a) in cursor
+            if not okarg and a.get("k") == "Call" and (A.path_segs(a["func"]) or [])[-2:] == ["Point3", "new"] and len(a["args"]) == 3:
+                t3 = [str(A.ftxt(x)) for x in a["args"]]
+                okarg = any(t3 == ["%s.x" % p_, "%s.y" % p_, "0"] for p_ in cursor)
+            if recv != "self.image_size":
+                rule.bad("%s|%s|cursor-map|receiver" % (ow, f["name"]), "%s::%s converts a position through `%s`; the canvas's own region `self.image_size` is the map the image is drawn through" % (ow, f["name"], recv[:50]), A.where(GUI, c))
+            elif not okarg:
+                rule.bad("%s|%s|cursor-map|argument" % (ow, f["name"]), "%s::%s converts `%s` instead of the cursor position it was given: the point under the cursor is the cursor's own pixel (on z = 0 for the 3D canvas)" % (ow, f["name"], str(A.ftxt(a))[:70]), A.where(GUI, c))
+            else:
+                rule.ok("%s::%s maps the cursor's own pixel through self.image_size" % (ow, f["name"]), file=GUI, line=c["ln"])
+    if n == 0:
+        rule.lost("cursor conversions (`self.image_size.transform_point(..)`) in the canvases")
+
 def run(ctx):
     r = ctx.rule("R1", "world_to_model = translate x rotate x scale of the view's own components", 9)
     ctx.guarded(r, r1_matrix)
@@ -594,3 +630,5 @@ def run(ctx):
     ctx.guarded(r, r_components_roundtrip)
     r = ctx.rule("R9", "a canvas remembers only its vetted state; cursor positions go from screen to world through screen_to_world() itself", 4)
     ctx.guarded(r, r_canvas_state)
+    r = ctx.rule("R10", "a cursor pixel reaches world space only through self.image_size.transform_point of the cursor's own coordinates", 4)
+    ctx.guarded(r, r10_cursor_to_world)
